@@ -16,13 +16,14 @@ RULE = ("seeded histories of add/remove/exists over call paths of length 1..4 fr
         "non-trivial if it hit at least one reach probe (prefix eviction, prefix rejection, add after remove, ...); "
         "distinct = distinct (knobs, op list).")
 STATE_MEASURE = "states = distinct stored path sets S; transitions = distinct (|S|, relation of argument to S, op, result)"
-REAL = ["lian.common_structs.PathManager", "PathTrie", "TrieNode", "CallPath", "CallSite"]
+REAL = ["lian.common_structs.PathManager", "PathTrie", "TrieNode", "CallPath", "CallSite",
+        "lian.util.loader.CallPathLoader (save / export / restore through a real feather file) for the persist-and-re-seed op"]
 STUBS = []
 ASSUMPTIONS = ["the empty path is not generated (the property does not say whether () is a path)",
                "call-site validity = no negative caller/stmt/callee id (CallPath.has_any_negative)"]
 PROBES = ["invivo_adds", "invivo_prefix_evictions", "invivo_prefix_rejections", "prefix_eviction", "reject_prefix", "reject_dup", "reject_negative", "reject_badtype",
           "add_after_remove_same", "add_after_remove_prefix", "add_after_evict_then_remove",
-          "remove_hit", "remove_miss", "branching"]
+          "remove_hit", "remove_miss", "branching", "numpy_ids", "persist_restore"]
 # the same check again, smaller, in interpreters started with assertions stripped (python -O / PYTHONOPTIMIZE=1)
 ENV_VARIANTS = [{"name": "python-O", "env": {"PYTHONOPTIMIZE": "1"}, "runs": {'quick': 4000, 'thorough': 40000}}]
 TIERS = {
@@ -32,6 +33,14 @@ TIERS = {
 
 SITES = [(1, 10, 2), (2, 20, 3), (3, 30, 1)]
 NEG_SITES = [(-1, 10, 2), (2, -20, 3), (3, 30, -1)]
+BIG = 9_300_000_000
+
+
+def _site(site, k):
+    """the alphabet is stored small in the trace; 'big_ids' maps it to ids of a large workspace"""
+    if not k.get("big_ids"):
+        return tuple(site)
+    return tuple((x + BIG if x > 0 else x - BIG) if x else x for x in site)
 
 _cs = None
 
@@ -110,6 +119,9 @@ def gen_knobs(rng, tier):
         "w_exists": rng.choice([0, 1, 2]),
         "p_negative": rng.choice([0.0, 0.05, 0.15]),
         "p_badtype": rng.choice([0.0, 0.03]),
+        "big_ids": rng.random() < 0.3,          # ids of large workspaces (extern ids start above 10^8; int64 arithmetic wraps near 9.2e18)
+        "p_numpy": rng.choice([0.0, 0.0, 0.3]),  # call sites whose ids are numpy integers (ids read from tables are)
+        "w_persist": rng.choice([0, 0, 1]),      # save the stored paths through the call-path loader, export, restore, re-seed a new store
     }
 
 
@@ -145,9 +157,12 @@ def generate(rng, k):
         return invivo.gen_invivo_ops(rng)
     m = Model()
     ops = []
-    kinds = ["add"] * k["w_add"] + ["remove"] * k["w_remove"] + ["exists"] * k["w_exists"]
+    kinds = ["add"] * k["w_add"] + ["remove"] * k["w_remove"] + ["exists"] * k["w_exists"] + ["persist"] * k.get("w_persist", 0)
     for _ in range(k["n_ops"]):
         kind = rng.choice(kinds)
+        if kind == "persist":
+            ops.append({"op": "persist"})
+            continue
         if kind == "add":
             if rng.random() < k["p_badtype"]:
                 ops.append({"op": "add_badtype", "v": rng.choice(["tuple", "none", "str"])})
@@ -158,6 +173,8 @@ def generate(rng, k):
                 p = p[:i] + (rng.choice(NEG_SITES),) + p[i + 1:]
             m.add(p)
             ops.append({"op": "add", "p": [list(s) for s in p]})
+            if rng.random() < k.get("p_numpy", 0):
+                ops[-1]["np"] = True
         elif kind == "remove":
             stored = sorted(m.S)
             if stored and rng.random() < 0.75:
@@ -174,15 +191,29 @@ def generate(rng, k):
 
 # ----------------------------------------------------------------------------- executor + oracle
 
-def _mk(p):
-    return _cs.CallPath(tuple(_cs.CallSite(*s) for s in p))
+def _mk(p, k=None, np_ids=False):
+    k = k or {}
+    if np_ids:
+        import numpy
+        return _cs.CallPath(tuple(_cs.CallSite(*[numpy.int64(x) for x in _site(s, k)]) for s in p))
+    return _cs.CallPath(tuple(_cs.CallSite(*_site(s, k)) for s in p))
+
+
+def _unsite(t, k):
+    """view of a stored call site back in the small alphabet of the trace"""
+    if not k.get("big_ids"):
+        return tuple(int(x) for x in t)
+    return tuple((int(x) - BIG if x > 0 else int(x) + BIG) if x else 0 for x in t)
+
+
+_K = [{}]
 
 
 def _view(paths):
-    """stored set of the real object -> set of tuples of site tuples (+ duplicates/invalid detection)."""
+    """stored set of the real object -> list of tuples of site tuples in the alphabet of the trace (duplicates kept)."""
     out = []
     for cp in paths:
-        out.append(tuple(cs.to_tuple() for cs in cp.path))
+        out.append(tuple(_unsite(cs.to_tuple(), _K[0]) for cs in cp.path))
     return out
 
 
@@ -212,6 +243,12 @@ def execute(trace):
     k = trace["knobs"]
     if k.get("population") == "invivo":
         return execute_invivo(trace)
+    _K[0] = k
+    import os
+    import shutil
+    import tempfile
+    from sim.core import scratch_root
+    persist_dir = None
     pm = _cs.PathManager()
     m = Model()
     probes = {}
@@ -220,6 +257,7 @@ def execute(trace):
     violation = None
     removed_hist = set()
     evict_ext = set()
+    persist_loader = [None]
 
     def hit(name):
         probes[name] = probes.get(name, 0) + 1
@@ -244,7 +282,9 @@ def execute(trace):
                 p = _t(op["p"])
                 size_before = len(m.S)
                 exp, rel = m.add(p)
-                obs = pm.add_path(_mk(p))
+                obs = pm.add_path(_mk(p, k, op.get("np")))
+                if op.get("np"):
+                    hit("numpy_ids")
                 trans.add(h64(f"{min(size_before, 4)}|{rel}|add|{exp}"))
                 if rel == "extension_of_stored":
                     hit("prefix_eviction")
@@ -267,7 +307,7 @@ def execute(trace):
                 p = _t(op["p"])
                 size_before = len(m.S)
                 exp = m.remove(p)
-                obs = pm.remove_path(_mk(p))
+                obs = pm.remove_path(_mk(p, k))
                 trans.add(h64(f"{min(size_before, 4)}|{'in' if exp else 'out'}|remove|{exp}"))
                 if exp:
                     hit("remove_hit")
@@ -279,9 +319,31 @@ def execute(trace):
             elif kind == "exists":
                 p = _t(op["p"])
                 exp = p in m.S
-                obs = pm.path_exists(_mk(p))
+                obs = pm.path_exists(_mk(p, k))
                 if bool(obs) != exp:
                     violation = fail(step, "exists", exp, obs, op)
+            elif kind == "persist":
+                if m.S:
+                    # what P3 does at the end of a run and what a later run does with the result: save the stored paths through
+                    # the call-path loader, export, restore into a FRESH loader, re-seed a new store and go on
+                    import lian.util.loader as L
+                    if persist_dir is None:
+                        persist_dir = tempfile.mkdtemp(prefix="c19-", dir=scratch_root())
+                    f_ = os.path.join(persist_dir, "call_path")
+                    ld = persist_loader[0] or L.CallPathLoader(f_)
+                    persist_loader[0] = ld
+                    import io, contextlib
+                    with contextlib.redirect_stdout(io.StringIO()), contextlib.redirect_stderr(io.StringIO()):
+                        ld.save(set(pm.paths))
+                        ld.export()
+                        ld2 = L.CallPathLoader(f_)
+                        ld2.restore()
+                    pm = _cs.PathManager()
+                    restored = sorted(ld2.all_paths, key=lambda cp: (len(cp.path), [tuple(int(x) for x in cs_.to_tuple()) for cs_ in cp.path]))
+                    for cp in restored:
+                        pm.add_path(cp)
+                    hit("persist_restore")
+                    obs = len(restored)
         except Exception as e:  # noqa - the API must not raise on these arguments
             violation = fail(step, "exception", "no exception", f"{type(e).__name__}: {e}", op)
         if violation:
@@ -303,7 +365,7 @@ def execute(trace):
                 for q in probeset:
                     if not m.valid(q):
                         continue
-                    if bool(pm.path_exists(_mk(q))) != (q in m.S):
+                    if bool(pm.path_exists(_mk(q, k))) != (q in m.S):
                         violation = fail(step, "exists_after", q in m.S, not (q in m.S),
                                          {"after": op, "probe": [list(s) for s in q]})
                         break
@@ -314,6 +376,8 @@ def execute(trace):
         states.add(h64(canon_json(sorted(m.S))))
         log.append([kind, obs if isinstance(obs, (bool, type(None))) else repr(obs), len(view)])
     from sim.core import digest_hex
+    if persist_dir:
+        shutil.rmtree(persist_dir, ignore_errors=True)
     return {"violation": violation, "probes": probes, "states": states, "trans": trans,
             "steps": len(trace["ops"]), "log": digest_hex([log, violation])}
 
